@@ -78,7 +78,11 @@ impl<Wr: Write> HtmlSerializer<Wr> {
     pub fn new(writer: Wr, opts: SerializeOpts) -> Self {
         let html_name = match opts.traversal_scope {
             TraversalScope::IncludeNode | TraversalScope::ChildrenOnly(None) => None,
-            TraversalScope::ChildrenOnly(Some(ref n)) => Some(tagname(n)),
+            // Only HTML elements can be raw text parents (compare `start_elem`).
+            TraversalScope::ChildrenOnly(Some(ref n)) => match n.ns {
+                ns!(html) => Some(n.local.clone()),
+                _ => None,
+            },
         };
         HtmlSerializer {
             writer,
